@@ -1576,6 +1576,96 @@ def complex_family_cases(chk, start_id, rng, tier):
     return out
 
 
+def complex_p2_cases(chk, start_id, rng, tier):
+    """PARAFAC2 with complex (Gaussian-integer) A, B, C and projections: real orthonormal / unitary with a column times +-i / the bilinear
+    column (1, 1, i) (P^T P = 1, Hermitian length sqrt 3) / scaled.  The model runs the validator AS IT IS (P^T P = I); the predicate wants
+    'accepted iff the columns are orthonormal in the Hermitian sense' -> the classified known finding parafac2_complex_projections."""
+    from tensorly import tenalg, parafac2_tensor as p2
+    out = []
+    EPV = "tensorly.parafac2_tensor._validate_parafac2_tensor"
+    try:   # which orthonormality test the CURRENT source has (P^T P or P^H P): read by the source-tie translator
+        from harness.props import C03_ast
+        herm_src = bool(C03_ast.translate_p2(C.REPO)["flags"].get("hermitian"))
+    except Exception:
+        herm_src = False   # (an untranslatable validator is a broken tie, reported by run_static)
+
+    def gout(v, res):
+        st, val = res
+        if st != "ok":
+            return "OErr"
+        if v[0] == "validate":
+            return out_lit(v, res)
+        a = np.asarray(val)
+        if a.dtype.kind not in "cfiu" or not (np.all(a.real == np.round(a.real)) and np.all(a.imag == np.round(a.imag))):
+            return "OBad"
+        return f"(OTG {garr_lit(a.astype(np.complex128))})"
+    glist = lambda l: "[" + "; ".join(garr_lit(np.asarray(a, dtype=np.complex128)) for a in l) + "]"
+    kinds = ["real", "unitary", "bilinear", "scaled", "unitary", "bilinear"]
+    for rep_ in range(6 if tier == "quick" else 24):
+        pk = kinds[rep_ % len(kinds)]
+        I = rng.randint(1, 2); R = 1 if pk == "bilinear" else rng.randint(1, 2); K = rng.randint(1, 2)
+        A, B, Cm = gint(rng, (I, R)), gint(rng, (R, R)), gint(rng, (K, R))
+        w = None if rng.random() < 0.5 else gint(rng, (R,))
+        ps = [signed_perm_cols(rng, rng.randint(R, R + 1), R).astype(np.complex128) for _ in range(I)]
+        i = rng.randrange(I)
+        if pk == "unitary":
+            ps[i][:, rng.randrange(R)] *= rng.choice([1j, -1j])
+        elif pk == "bilinear":
+            ps[i] = np.array([[1], [1], [1j]], dtype=np.complex128)
+        elif pk == "scaled":
+            ps[i] = ps[i] * (1 + 1j)
+        herm = all(np.array_equal(P.conj().T @ P, np.eye(R)) for P in ps)
+        wv = np.ones(R, dtype=np.complex128) if w is None else w
+        sl = [P @ B @ np.diag(A[k] * wv) @ Cm.T for k, P in enumerate(ps)]
+        J = max(x.shape[0] for x in sl); dense = np.zeros((I, J, K), dtype=np.complex128)
+        for k, x in enumerate(sl):
+            dense[k, :x.shape[0], :] = x
+        views = [("validate",), ("tensor",), ("vec",)] + [("slice", k) for k in range(I)] + [("unfolded", m) for m in range(3)]
+        desc = {"kind": "p2 (complex)", "projections": pk, "factor_shapes": [list(A.shape), list(B.shape), list(Cm.shape)], "projection_shapes": [list(P.shape) for P in ps],
+                "complex_projections": pk in ("unitary", "bilinear", "scaled"), "hermitian_orthonormal": herm}
+        pairs, seen, ncalls = [], set(), 0
+        for be in ("core", "einsum"):
+            tenalg.set_backend(be)
+            try:
+                tup = (None if w is None else w.copy(), [A.copy(), B.copy(), Cm.copy()], [P.copy() for P in ps])
+                for v in views:
+                    call = {"validate": lambda: p2._validate_parafac2_tensor(tup), "tensor": lambda: p2.parafac2_to_tensor(tup), "vec": lambda: p2.parafac2_to_vec(tup),
+                            "slice": lambda: p2.parafac2_to_slice(tup, v[1]), "unfolded": lambda: p2.parafac2_to_unfolded(tup, v[1])}[v[0]]
+                    res = C.call_impl(call, timeout=30); ncalls += 1
+                    if res == ("crash", "timeout"):
+                        SKIPPED["timeouts"] += 1; continue
+                    l = (view_lit(v), gout(v, res))
+                    if l not in seen:
+                        seen.add(l); pairs.append(l)
+                    msg = None
+                    if herm and res[0] != "ok":
+                        msg = f"{v[0]} raised on a complex PARAFAC2 tensor whose projections have orthonormal columns (P^H P = I): {str(res[1])[:80]}"
+                    elif not herm and res[0] == "ok":
+                        msg = (f"complex PARAFAC2 tensor with a projection whose columns are not orthonormal (P^H P != I, {pk}) "
+                               + ("accepted by the validator" if v[0] == "validate" else f"silently reconstructed by {v[0]}"))
+                    elif herm and v[0] != "validate":
+                        exp = {"tensor": lambda: dense, "vec": lambda: dense.reshape(-1), "slice": lambda: sl[v[1]],
+                               "unfolded": lambda: np.moveaxis(dense, v[1], 0).reshape(dense.shape[v[1]], -1)}[v[0]]()
+                        if not (np.shape(res[1]) == exp.shape and np.array_equal(res[1], exp)):
+                            msg = f"{v[0]}{v[1:]} of a complex PARAFAC2 tensor differs from P_i B diag(a_i w) C^T"
+                    if msg and chk is not None:
+                        chk.finding(EPV if (not herm or res[0] != "ok") else EP["p2"] + "." + FN[("p2", v[0])], dict(desc, view=vname(v), backend=be, input_kind="tuple"), msg,
+                                    "C03_invalid_rejected" if not herm else "C03_view_agrees_with_defining_contraction")
+            finally:
+                tenalg.set_backend("core")
+        wl = "None" if w is None else f"(Some {garr_lit(w)})"
+        out.append((f"(CViews {start_id + len(out)}%nat (DP2G {C.boolc(herm_src)} {wl} {glist([A, B, Cm])} {glist(ps)}) [" + "; ".join(f"({v}, {o})" for v, o in pairs) + "])", desc, ncalls))
+    return out
+
+
+def clf_parafac2_complex_projections(f):
+    i = f["inputs"]
+    return i.get("kind") == "p2 (complex)" and bool(i.get("complex_projections")) and i.get("projections") in ("unitary", "bilinear")
+
+
+CLASSIFIERS["parafac2_complex_projections"] = clf_parafac2_complex_projections
+
+
 # (round 7: cp_norm did not conjugate the second weight vector - repaired in /repo by 20cafdc; the predicate stays, any such output is a
 # VIOLATION now; the witness runs first in complex_cp_cases and is the Example C03_before_20cafdc_cp_norm_complex_weights)
 def run(chk):
@@ -1628,6 +1718,10 @@ def run(chk):
         cases.append(lit); meta.append((desc, None))
         chk.count(key=("complex-cp", tuple(map(tuple, desc["factor_shapes"])), desc["weights"]), nontrivial=True, n=ncalls)
         chk.hist("family", "cp/complex"); chk.hist("weights", "complex:" + desc["weights"])
+    for lit, desc, ncalls in complex_p2_cases(chk, len(meta), rng, tier):
+        cases.append(lit); meta.append((desc, None))
+        chk.count(key=("complex-p2", desc["projections"], tuple(map(tuple, desc["projection_shapes"]))), nontrivial=True, n=ncalls)
+        chk.hist("family", "p2/complex")
     for lit, desc, ncalls in complex_family_cases(chk, len(meta), rng, tier):
         cases.append(lit); meta.append((desc, None))
         chk.count(key=("complex", desc["kind"], tuple(map(tuple, desc["factor_shapes"]))), nontrivial=True, n=ncalls)
